@@ -72,11 +72,26 @@ func strictCheck(in *sp.Inst, cfg sp.Cfg) (sig, what string) {
 	if werr != nil || n2 != n || !bytes.Equal(out, w2.buf.Bytes()) {
 		return "determinism:" + feature(cfg), "second write of the same value differs: " + engine.Hex(clip(w2.buf.Bytes())) + " vs " + engine.Hex(clip(out))
 	}
+	// a third write with the logging hook set: observing must not change the bytes
+	in.S.Logger = &nullLogger{}
+	var w3 countWriter
+	c = engine.Catch(func() { _, werr = in.S.WriteTo(&w3) })
+	in.S.Logger = nil
+	if c.Panicked {
+		return c.Sig + ":write-logged", "WriteTo with a Logger panicked: " + c.Value
+	}
+	if werr != nil || !bytes.Equal(out, w3.buf.Bytes()) {
+		return "determinism:with-logger:" + feature(cfg), "writing with SMF.Logger set emits other bytes: " + engine.Hex(clip(w3.buf.Bytes())) + " vs " + engine.Hex(clip(out))
+	}
 	if !cfg.NoRS && len(out) < len(refsmf.Encode(exp)) {
 		ctx.Add("files_with_running_status_elision", 1)
 	}
 	return "", ""
 }
+
+type nullLogger struct{ n int }
+
+func (l *nullLogger) Printf(format string, vals ...interface{}) { l.n++ }
 
 func clip(b []byte) []byte {
 	if len(b) > 200 {
